@@ -96,14 +96,22 @@ contract(
     params=dict(info=FileInfo, protocol=OStr),
     returns=Meta,
     ensures=lambda c: And(c.result.size == c.info.size, c.result.inode == c.info.ino, c.result.mtime == c.info.mtime,
-                          c.result.isdir == And(c.info.type.is_some, c.info.type.val == "directory")),
+                          c.result.isdir == And(c.info.type.is_some, c.info.type.val == "directory"),
+                          SV(c.result.t == meta_of(c.info, c.protocol).t, TBool)),  # structural (all fields, not attrs' eq subset)
     assumed=True,
-    doc="[to be verified] Meta.from_info copies size / ino / mtime and the kind from the stat result",
+    doc="[to be verified] Meta.from_info copies size / ino / mtime and the kind from the stat result; it is a function of (info, protocol)",
 )
 contract("ext:FileSystem.info", params=dict(self=FileSystem, path=TStr), returns=FileInfo,
          raises={"FileNotFoundError": (None, None)},
          ensures=lambda c: And(c.result == now_info(c.self, c.path), c.result.size.is_some, c.result.ino.is_some, c.result.mtime.is_some),
          assumed=True, doc="fs.info(path): the current stat of the file (a function of the unchanging filesystem state within one call)")
+
+
+def meta_of(info, protocol):
+    from pyvc.specfn import ufn
+
+    f = ufn("meta_of_info", FileInfo.sort(), OStr.sort(), Meta.sort())
+    return SV(f(info.t, protocol.t), Meta)
 
 
 def now_info(fs, path):
@@ -298,19 +306,56 @@ def cur_hash(c, name):
     return HT(name, c.path, CK_info(now_info(c.fs, c.path)))
 
 
+from pyvc.calls import EXTERN_SYMBOLIC  # noqa: E402
+from pyvc.types import TSet  # noqa: E402
+
+EXTERN_SYMBOLIC["hashlib.algorithms_available"] = TSet(TStr)
+
+META_TEXT_FIELDS = [f for f, t in Meta.fields.items() if isinstance(t, TOpt) and t.elem == TStr]
+META_OTHER_FIELDS = [f for f in Meta.fields if f not in META_TEXT_FIELDS]
+
+
+def alg_name(name):
+    """type invariant of algorithm names: not the name of a non-text field of Meta (getattr(meta, name) is a checksum lookup)"""
+    return And(*[name != f for f in META_OTHER_FIELDS])
+
+
+def fs_checksums_sound(c):
+    """FS-CHECKSUM (physical assumption, listed): a checksum that the filesystem's info() reports under key F for the file as it
+    is now is the digest of its current bytes under algorithm F -- and is not a directory id"""
+    m = meta_of(now_info(c.fs, c.path), c.h.get("FileSystem.protocol", c.fs) if False else OStr.some(c.h.get("FileSystem.protocol", c.fs)))
+    out = []
+    for f in META_TEXT_FIELDS:
+        v = getattr(m, f)
+        out.append(Implies(And(v.is_some, v.val.length() > 0), And(v.val == HT(lift(f), c.path, CK_info(now_info(c.fs, c.path))), Not(SV(z3.SuffixOf(z3.StringVal(".dir"), v.val.t), TBool)))))
+    return And(*out)
+
+
+contract("ext:FileSystem.<dynamic>", params=dict(self=FileSystem, name=TStr, path=TStr), returns=TStr,
+         ensures=lambda c: And(c.result == HT(c.name, c.path, CK_info(now_info(c.self, c.path))), c.result.length() > 0),
+         assumed=True, pure=True,
+         doc="a hash method of the filesystem named after an algorithm (getattr(fs, name)(path)) returns the digest of the current bytes")
+contract(f"{H}:file_md5", params=dict(fname=TStr, fs=FileSystem, callback=TOpt(Callback), name=TStr, size=TOpt(TInt)), returns=TStr,
+         raises={"FileNotFoundError": (lambda c: Implies(c.h.get("FileSystem.is_local", c.fs), Not(c.h.G("lfiles").contains(c.fname))), None)},
+         ensures=lambda c: And(c.result == HT(c.name, c.fname, CK_info(now_info(c.fs, c.fname))), c.result.length() > 0,
+                               Implies(c.h.get("FileSystem.is_local", c.fs), c.h.G("lfiles").contains(c.fname))),
+         assumed=True, verify=False,
+         doc="[composition not verified] opens the file and feeds it to fobj_md5 (proved, C14): the digest of the current bytes under `name`")
+
 contract(
     f"{H}:_hash_file",
     params=dict(path=TStr, fs=FileSystem, name=TStr, callback=TOpt(Callback), info=TOpt(FileInfo)),
     returns=TTuple([TStr, Meta]),
+    requires=lambda c: And(_info_ok(c), alg_name(c.name)),
     raises={"NotImplementedError": (None, None),
             "FileNotFoundError": (lambda c: Implies(c.h.get("FileSystem.is_local", c.fs), Not(c.h.G("lfiles").contains(c.path))), None)},
     ensures=lambda c: And(c.result[0] == cur_hash(c, c.name), Not(c.result[0].contains(".dir")), c.result[0].length() > 0, _exists_if_local(c)),
-    assumed=True,
-    verify=False,
+    # digests are hex strings (no '.dir' inside): part of what HT denotes
+    entry_assume=lambda c: And(fs_checksums_sound(c), Not(cur_hash(c, c.name).contains(".dir"))),
     bounded=("bounded/hash_file_fs.py", 60, 900),
-    props=["C14"],
-    doc="[body not verified: bounded stand-in; fobj_md5 is proved under C14] the digest of the file's current bytes under `name`, "
-        "whichever of the three sources supplies it (checksum in fs.info, hash method of the filesystem, hashing the bytes)",
+    props=["C14", "C13"],
+    doc="the digest of the file's current bytes under `name`, whichever of the three sources supplies it (checksum in fs.info under "
+        "that very name, hash method of the filesystem of that name, hashing the bytes); also run as a bounded stand-in",
 )
 
 
@@ -332,7 +377,7 @@ contract(
     f"{H}:hash_file",
     params=dict(path=TStr, fs=FileSystem, name=TStr, state=TOpt(StateBase), callback=TOpt(Callback), info=TOpt(FileInfo)),
     returns=TTuple([Meta, HashInfo]),
-    requires=lambda c: And(Implies(c.state.is_some, _state_inv_of(c.h, c.state.val)), _info_ok(c)),
+    requires=lambda c: And(Implies(c.state.is_some, _state_inv_of(c.h, c.state.val)), _info_ok(c), alg_name(c.name)),
     raises={"NotImplementedError": (None, lambda c: Implies(c.state.is_some, _state_inv_of(c.h, c.state.val))),
             "FileNotFoundError": (None, lambda c: Implies(c.state.is_some, _state_inv_of(c.h, c.state.val)))},
     modifies=lambda c: [("HashesCache.table", None)],
